@@ -538,7 +538,7 @@ STEP_NOTE = (" Capstone (coq/translated/MarketStepProofs.v, re-checked on every 
              "_update_time, _add_order, _cancel_order, _execute_orders and the generated walk of a round (pre-loop statements and loop body of _execution, iterated with the model's fuel) equals the model's step_rec on every state satisfying "
              "the book invariant, for every operation, and therefore along every sequence of operations (`every_history_of_the_source_is_a_history_of_the_model`: same "
              "states, same records; `histories_of_the_source_from_setup`: from market setup and the first clock step, the model's final_state and trace; "
-             "`nothing_is_lost_along_histories_of_the_source`, `a_round_of_the_source_never_fails_and_trades_at_one_price_within_both_limits`, `the_series_are_well_stored_along_histories_of_the_source`, `a_round_of_the_source_leaves_books_that_do_not_cross`, `a_round_of_the_source_on_a_stopped_market_trades_nothing`, `an_order_the_source_cancelled_is_never_filled_afterwards` as worked instances) - the Level-M theorems of this property are theorems about histories of the source's own statements.")
+             "`nothing_is_lost_along_histories_of_the_source`, `a_round_of_the_source_never_fails_and_trades_at_one_price_within_both_limits`, `the_series_are_well_stored_along_histories_of_the_source`, `a_round_of_the_source_leaves_books_that_do_not_cross`, `a_round_of_the_source_on_a_stopped_market_trades_nothing`, `an_order_the_source_cancelled_is_never_filled_afterwards`, `an_order_the_source_reported_expired_is_never_filled_afterwards` as worked instances) - the Level-M theorems of this property are theorems about histories of the source's own statements.")
 for _p in ("C04", "C06", "C08"):
     CLAIMS[_p]["ties"] += (_market_step_tie,)
     CLAIMS[_p]["text"] += STEP_NOTE
